@@ -1,0 +1,24 @@
+//go:build verif
+
+// Contracts for package tick, read by /verif/engine (govc). Comments only.
+package tick
+
+// ---------------------------------------------------------------- eval.go (C05)
+// "a property used without parentheses": evaluating `x.name` asks the describer of x whether it
+// has the property and then reads it. For every name for which HasProperty answers true, reading
+// returns a value -- it never panics. (A property that is set through a property method has no
+// field behind it: HasProperty is true for it, the field table has no entry.)
+// Assumed: reflect.Value.Interface panics exactly on the zero Value (package reflect's contract).
+//@ func capitalizeFirst
+//@   trusted
+//@   pure
+//@ func (*ReflectionDescriber).HasProperty
+//@   props C05
+//@   requires r != nil
+//@   modifies nothing
+//@   ensures result == (has(r.propertyMethods, capitalizeFirst(name)) || has(r.properties, capitalizeFirst(name)))
+//@ func (*ReflectionDescriber).Property
+//@   props C05
+//@   requires r != nil
+//@   requires has(r.propertyMethods, capitalizeFirst(name)) || has(r.properties, capitalizeFirst(name))
+//@   requires forall k string :: has(r.properties, k) ==> r.properties[k].flag != 0
